@@ -472,3 +472,64 @@ def b_base_dots(tier, rnd):
 @battery("base_kind")
 def b_base_kind(tier, rnd):
     return {"rule": "10 bases x {3, 5, 7}", "exhaustive_upto": 30, "cases": [(b, k) for b in VBASES for k in (3, 5, 7)]}
+
+
+# ---------------------------------------------------------------- Note objects
+def _notes(maxacc, octaves):
+    from mingus.containers.note import Note
+    return [Note(n, o) for n in all_names(maxacc) for o in octaves]
+
+
+@battery("notes")
+def b_notes(tier, rnd):
+    return {"rule": "Note objects: names with <= 2 accidentals (all orderings) x octaves 0..9",
+            "cases": [(n,) for n in _notes(2, range(10))]}
+
+
+@battery("note_pairs")
+def b_note_pairs(tier, rnd):
+    ns1 = _notes(2, (0, 3, 4, 9))
+    return {"rule": "ordered pairs of Notes: names with <= 2 accidentals x octaves {0,3,4,9} against names with <= 1 "
+                    "accidental x octaves {0,2,3,4,5,9}",
+            "cases": [(a, b) for a in ns1 for b in _notes(1, (0, 2, 3, 4, 5, 9))]}
+
+
+@battery("note_int")
+def b_note_int(tier, rnd):
+    from mingus.containers.note import Note
+    ints = list(range(-3, 20)) + [126, 127, 128, 129, 255, -128, 1000]
+    return {"rule": "Notes (C-4, Bb-0, F##-9) x integers -3..19 and around 127/128",
+            "cases": [(Note(n, o), i) for (n, o) in (("C", 4), ("Bb", 0), ("F##", 9)) for i in ints]}
+
+
+@battery("note_setnote")
+def b_note_setnote(tier, rnd):
+    from mingus.containers.note import Note
+    names = all_names(2) + ["H", "c", "Cx", "C#x", "x", "1"]
+    return {"rule": "set_note on a fresh Note x (names with <= 2 accidentals + malformed) x octaves {0,4,9} x "
+                    "dynamics {} / None", "cases": [(Note(), n, o, d) for n in names for o in (0, 4, 9) for d in ({}, None)]}
+
+
+@battery("note_init")
+def b_note_init(tier, rnd):
+    from mingus.containers.note import Note
+    names = all_names(2) + ["H", "c", "Cx", "C#x", "x", "1"]
+    return {"rule": "Note.__init__ on a blank instance x names x octaves {0,4,9}",
+            "cases": [(Note.__new__(Note), n, o) for n in names for o in (0, 4, 9)]}
+
+
+@battery("note_transpose")
+def b_note_transpose(tier, rnd):
+    from mingus.containers.note import Note
+    octs = (0, 1, 4, 8) if tier == "quick" else range(0, 10)
+    return {"rule": "Notes on 35 canonical names x octaves x 35 shorthands x {up, down}",
+            "cases": [(Note(n, o), s, u) for n in canon_names(2) for o in octs for s in interval_shorthands(2)
+                      for u in (True, False)]}
+
+
+@battery("note_shorthand")
+def b_note_shorthand(tier, rnd):
+    from mingus.containers.note import Note
+    octs = (1, 4, 8)
+    return {"rule": "Notes on 35 canonical names x octaves {1,4,8} x 35 shorthands",
+            "cases": [(Note(n, o), s) for n in canon_names(2) for o in octs for s in interval_shorthands(2)]}
